@@ -354,6 +354,17 @@ func c08Check(c c08Case) error {
 	for k := 0; k < 32; k++ {
 		keys = append(keys, int(ha^(1<<uint(k))))
 	}
+	// keys whose hash is exactly Hash(a): ints hi<<32|lo hash to 33*hi+lo, so
+	// the key under test sits in a collision node with up to 3 others
+	// (verified with vals.Hash; if the int hash ever changes they are just fillers)
+	var colliders []any
+	for hi := 1; hi <= 3; hi++ {
+		k := int(uint64(hi)<<32 | uint64(ha-uint32(33*hi)))
+		if vals.Hash(k) == ha && !vals.Equal(k, a) {
+			colliders = append(colliders, k)
+			keys = append(keys, k)
+		}
+	}
 	rng := &c08Rng{s: c.Seed}
 	for i := 0; i < c.N; i++ {
 		keys = append(keys, c08Filler(rng, i))
@@ -427,7 +438,7 @@ func c08Check(c c08Case) error {
 				return fmt.Errorf("%s: dissoc a then assoc b changes Len from %d to %d; %s", who, size, m.Len(), ctx)
 			}
 		}
-		where := fmt.Sprintf("%s (map of %d entries: the key, 32 hash neighbours, %d fillers; key inserted at position %d)", who, size, c.N, pos)
+		where := fmt.Sprintf("%s (map of %d entries: the key, 32 hash neighbours, up to 3 fully colliding ints, %d fillers; key inserted at position %d)", who, size, c.N, pos)
 		if got, ok := m.Index(x); !ok || got != "A" {
 			return fmt.Errorf("%s: the key itself is not found (%v, %v); %s", where, got, ok, ctx)
 		}
@@ -465,6 +476,26 @@ func c08Check(c c08Case) error {
 		}
 		if n, _ := c08CountEq(m2, x); n != 0 {
 			return fmt.Errorf("%s: after dissoc the map still holds %d keys eq to the key; %s", where, n, ctx)
+		}
+		// assoc and dissoc of the eq key must not have disturbed the map they were applied to
+		if m.Len() != size {
+			return fmt.Errorf("%s: the original map's Len changed from %d to %d after assoc/dissoc of the eq key on it; %s", where, size, m.Len(), ctx)
+		}
+		if got, ok := m.Index(x); !ok || got != "A" {
+			return fmt.Errorf("%s: the original map lost or changed the key (%v, %v) after assoc/dissoc of the eq key produced new maps; %s", where, got, ok, ctx)
+		}
+		if n, _ := c08CountEq(m, x); n != 1 {
+			return fmt.Errorf("%s: the original map holds %d keys eq to the key after assoc/dissoc produced new maps, want 1; %s", where, n, ctx)
+		}
+		for _, ck := range colliders {
+			for mi, mm := range []vals.Map{m, m1, m2} {
+				if _, ok := mm.Index(ck); !ok {
+					return fmt.Errorf("%s: fully colliding key %v lost (map %d of original/assoc/dissoc); %s", where, ck, mi, ctx)
+				}
+				if n, _ := c08CountEq(mm, ck); n != 1 {
+					return fmt.Errorf("%s: fully colliding key %v occurs %d times (map %d of original/assoc/dissoc); %s", where, ck, n, mi, ctx)
+				}
+			}
 		}
 		// neighbours must all still be there and distinct from the key
 		for k := 0; k < 32; k++ {
